@@ -47,8 +47,9 @@ Near(f, p, tol) ==
 
 \* two recorded floats within tol*1e-9 of each other
 NearFF(f, g, tol) ==
-    /\ IsFinite(f) /\ IsFinite(g)
-    /\ LimbDiff(f[1], f[2], f[3], g[1], g[2], g[3], tol) <= tol
+    \/ f = g                                   \* identical records (also: the same non-finite code on both sides)
+    \/ /\ IsFinite(f) /\ IsFinite(g)
+       /\ LimbDiff(f[1], f[2], f[3], g[1], g[2], g[3], tol) <= tol
 
 NearSeq(fs, ps, tol) == /\ Len(fs) = Len(ps)
                         /\ \A i \in 1..Len(ps) : Near(fs[i], ps[i], tol)
